@@ -391,7 +391,7 @@ def replay(path):
     print(json.dumps({k: v for k, v in payload.items() if k != "more_cases"}, indent=1)[:6000])
     case = payload.get("case") or {}
     hist = (case.get("replay") or {}).get("history") or []
-    forest = [h for h in hist if re.match(r"^(reset|cons|new|append|prepend|insert_|detach|remove|replace|unwrap|wrap|clone|any_append|append_|map_|set_|text_content_set|strip_ws|dump|inv|removed)", h)]
+    forest = [h for h in hist if re.match(r"^(reset|cons|new|parse|xml_id|append|prepend|insert_|detach|remove|replace|unwrap|wrap|clone|any_append|append_|map_|set_|text_content_set|strip_ws|dump|inv|removed)", h)]
     if forest:
         with Lock():
             cb = cargo_build()
